@@ -1,0 +1,103 @@
+//go:build verif
+
+// Contracts for govc (comment-only file; see /verif/DESIGN.md section 3).
+// Interface contracts of the abstract group: nil-safety level (arguments must be non-nil,
+// results are non-nil); implementations: secp256k1.go (A-LIB-EC for the arithmetic itself).
+package curve
+
+//@ interface Curve method NewPoint
+//@   modifies nothing
+//@   allocates
+//@   ensures result != nil
+//@ interface Curve method NewBasePoint
+//@   modifies nothing
+//@   allocates
+//@   ensures result != nil
+//@ interface Curve method NewScalar
+//@   modifies nothing
+//@   allocates
+//@   ensures result != nil
+//@ interface Curve method Name
+//@   pure
+//@ interface Curve method ScalarBits
+//@   pure
+//@   ensures result > 0 && result <= 4096
+//@ interface Curve method SafeScalarBytes
+//@   pure
+//@   ensures result > 0 && result <= 4096
+//@ interface Curve method Order
+//@   pure
+//@   ensures result != nil
+
+//@ interface Scalar method Curve
+//@   pure
+//@   ensures result != nil
+//@ interface Scalar method Add
+//@   requires arg0 != nil
+//@   modifies nothing
+//@   ensures result == self
+//@ interface Scalar method Sub
+//@   requires arg0 != nil
+//@   modifies nothing
+//@   ensures result == self
+//@ interface Scalar method Mul
+//@   requires arg0 != nil
+//@   modifies nothing
+//@   ensures result == self
+//@ interface Scalar method Set
+//@   requires arg0 != nil
+//@   modifies nothing
+//@   ensures result == self
+//@ interface Scalar method SetNat
+//@   requires arg0 != nil
+//@   modifies nothing
+//@   ensures result == self
+//@ interface Scalar method Negate
+//@   modifies nothing
+//@   ensures result == self
+//@ interface Scalar method Invert
+//@   modifies nothing
+//@   ensures result == self
+//@ interface Scalar method Equal
+//@   requires arg0 != nil
+//@   modifies nothing
+//@ interface Scalar method IsZero
+//@   modifies nothing
+//@ interface Scalar method IsOverHalfOrder
+//@   modifies nothing
+//@ interface Scalar method Act
+//@   requires arg0 != nil
+//@   modifies nothing
+//@   allocates
+//@   ensures result != nil
+//@ interface Scalar method ActOnBase
+//@   modifies nothing
+//@   allocates
+//@   ensures result != nil
+
+//@ interface Point method Curve
+//@   pure
+//@   ensures result != nil
+//@ interface Point method Add
+//@   requires arg0 != nil
+//@   modifies nothing
+//@   allocates
+//@   ensures result != nil
+//@ interface Point method Sub
+//@   requires arg0 != nil
+//@   modifies nothing
+//@   allocates
+//@   ensures result != nil
+//@ interface Point method Negate
+//@   modifies nothing
+//@   allocates
+//@   ensures result != nil
+//@ interface Point method Equal
+//@   requires arg0 != nil
+//@   modifies nothing
+//@ interface Point method IsIdentity
+//@   modifies nothing
+//@ interface Point method XScalar
+//@   modifies nothing
+//@   allocates
+//@   ensures result != nil
